@@ -408,7 +408,8 @@ def main():
             'known_findings_seen': {k: e['count'] for k, e in viol_known.items()},
             'inconclusive_cases': inconclusive_cases[:20],
             'case_wall_s': {'sum': round(sum(float(r.get('wall', 0)) for r in results.values()), 1),
-                            'max': round(max([float(r.get('wall', 0)) for r in results.values()] or [0]), 1), 'jobs': njobs},
+                            'max': round(max([float(r.get('wall', 0)) for r in results.values()] or [0]), 1), 'jobs': njobs,
+                            'slowest': sorted([[round(float(r.get('wall', 0)), 1), int(i)] for i, r in results.items()], reverse=True)[:5]},
             'verdict': verdict,
             'inconclusive_reasons': reasons,
             'exhaustive': bool(getattr(mod, 'EXHAUSTIVE', False)),
